@@ -287,6 +287,43 @@ DecodeAzimuth(s) ==
        IN <<"az", neg2, D2, R2, r[5], D2 = 180 /\ R2 = 0>>
 
 (* ------------------------------------------------------------------------ *)
+(* The numeric overloads of DMS.hpp.                                          *)
+(*  Decode(d, m = 0, s = 0): "Convert DMS to an angle ... This does not       *)
+(*    propagate the sign on d to the other components": d + m/60 + s/3600     *)
+(*    with each component carrying its own sign.  On the lattice the           *)
+(*    components are whole degrees, whole minutes and hundredths of a second,  *)
+(*    so the angle is a whole number of units: <<neg, D, R>>.                  *)
+(*  Encode(ang, d, m) / Encode(ang, d, m, s): "Split angle into degrees and    *)
+(*    minutes (and seconds)", d (and m) "an integer returned as a real".  What *)
+(*    the split owes: the parts recombine to the angle, none of them has the   *)
+(*    opposite sign, the whole parts are integers and minutes and seconds are  *)
+(*    below 60 - up to exactly 60 in the last part, because the angle handed   *)
+(*    over is the double next to D + M/60 (rule SplitAtCarry).                 *)
+(* ------------------------------------------------------------------------ *)
+UnitsPerMin == U \div 60                                  \* 6 000 000
+UnitsPerCs == U \div 360000                               \* a hundredth of an arc second: 1000
+Sgn(neg) == IF neg THEN -1 ELSE 1
+\* signed total in units -> <<neg, D, R>> (|total| < 2^31)
+OfUnits(t) == LET a == IF t < 0 THEN -t ELSE t IN <<t < 0, a \div U, a % U>>
+\* d whole degrees (D <= 5), m whole minutes, s hundredths of a second, each with its sign: <<neg, D, R>>
+DecodeNum(dneg, D, mneg, M, sneg, S100) ==
+  OfUnits(Sgn(dneg) * D * U + Sgn(mneg) * M * UnitsPerMin + Sgn(sneg) * S100 * UnitsPerCs)
+\* the same for D too large for one TLC integer: all components of one sign
+DecodeNumSame(neg, D, M, S100) == LET r == M * UnitsPerMin + S100 * UnitsPerCs IN <<neg, D + r \div U, r % U>>
+\* the string d:m:s.ss that names the same angle
+ColonStr(neg, D, M, S100) ==
+  (IF neg THEN <<45>> ELSE <<>>) \o DigitsOf(D) \o <<58>> \o DigitsOf(M) \o <<58>> \o DigitsOf(S100 \div 100) \o <<46>> \o Pad(DigitsOf(S100 % 100), 2)
+
+\* observed split of the angle (-1)^neg (D + R/U): whole degrees d, whole minutes m (three-part form; mu = 0) or
+\* minutes in units mu (two-part form; m = the whole minutes, mu the rest), seconds in units su; every part an
+\* integer count of its unit with the sign flags dn, mn, sn (of a zero part: free); tol: units of rounding allowed
+SplitOK(neg, D, R, d, m, rest, dn, mn, sn, tol) ==
+  /\ d >= 0 /\ m >= 0 /\ rest >= 0
+  /\ (d > 0 => dn = neg) /\ (m > 0 => mn = neg) /\ (rest > 0 => sn = neg)
+  /\ m <= 59 /\ rest <= UnitsPerMin
+  /\ LET e == (d - D) * U + (m * UnitsPerMin + rest - R) IN (d - D) \in {-1, 0, 1} /\ e <= tol /\ -e <= tol
+
+(* ------------------------------------------------------------------------ *)
 (* Encoder.  The angle is (-1)^neg (D + n / (scale 10^prec)) degrees, scale = *)
 (* 1, 60, 3600 for trailing DEGREE, MINUTE, SECOND, 0 <= n < scale 10^prec.   *)
 (* ------------------------------------------------------------------------ *)
